@@ -45,7 +45,6 @@ class SpecDataset(metaclass=Plugin):
 
     def __init__(self, xarray_dset):
         self.dset = xarray_dset
-        self._wrapper()
         self.supported_dims = [
             attrs.TIMENAME,
             attrs.SITENAME,
@@ -56,23 +55,23 @@ class SpecDataset(metaclass=Plugin):
         ]
 
     def __getattr__(self, attr):
+        """Public SpecArray methods are available from SpecDataset.
+
+        For example: self.spec.hs() becomes equivalent to self.efth.spec.hs(). They are
+        resolved when called, against the current efth variable, because xarray caches
+        the accessor and efth may be replaced in the dataset afterwards.
+
+        """
+        if attr == "dset":
+            raise AttributeError(attr)
+        if not attr.startswith("_") and attrs.SPECNAME in self.dset:
+            spec = self.dset[attrs.SPECNAME].spec
+            if hasattr(spec, attr):
+                return getattr(spec, attr)
         return getattr(self.dset, attr)
 
     def __repr__(self):
         return re.sub(r"<.+>", f"<{self.__class__.__name__}>", str(self.dset))
-
-    def _wrapper(self):
-        """Wraper around SpecArray methods.
-
-        Allows calling public SpecArray methods from SpecDataset.
-        For example:
-            self.spec.hs() becomes equivalent to self.efth.spec.hs()
-
-        """
-        for method_name in dir(self.dset[attrs.SPECNAME].spec):
-            if not method_name.startswith("_"):
-                method = getattr(self.dset[attrs.SPECNAME].spec, method_name)
-                setattr(self, method_name, method)
 
     def _check_and_stack_dims(self):
         """Ensure dimensions are suitable for dumping in some ascii formats.
